@@ -8,7 +8,7 @@ META = dict(
     bounds=dict(
         quick="Policy/AsyncPolicy call+execute (and RetryPolicy sugar) with a retry component and a spy breaker: 2 "
               "consecutive calls per policy object, the first with N=3 scripted attempts (later calls: 1) over success, {TRANSIENT, PERMANENT} x "
-              "{exception, result}, AbortRetryError, CancelledError; symbolic max_attempts, abort_if answers, sleep-handler "
+              "{exception, result}, a builtin TimeoutError, AbortRetryError, CancelledError; symbolic max_attempts, abort_if answers, sleep-handler "
               "decisions (SLEEP/DEFER/ABORT); async: CancelledError thrown at a solver-chosen await point; Policy/AsyncPolicy "
               "without retry: 5 outcome kinds x attempt hook raising (start/end; ValueError, AbortRetryError, "
               "KeyboardInterrupt): exactly one record",
@@ -157,7 +157,7 @@ def jobs(tier):
     q = tier == "quick"
     N = 3 if q else 4
     out = []
-    kinds = ["ok", "exc", "res", "abort_exc", "cancelled"]
+    kinds = ["ok", "exc", "res", "abort_exc", "cancelled", "timeout_exc"]
     wall = 600 if q else 3000
     entries = ["policy.call", "policy.execute", "apolicy.call", "apolicy.execute"] + ([] if q else ["rp.call", "rp.execute", "arp.call", "arp.execute"])
     for entry in entries:
